@@ -19,8 +19,10 @@ def log(*a):
 def sh(cmd, timeout=1800, cwd=None, env=None, check=True, inp=None):
     """run a command (list), return (rc, stdout, stderr) as text"""
     try:
+        txt = isinstance(inp, str) or inp is None
+        kw = dict(text=True, errors='replace') if txt else {}     # output that is not UTF-8 (e.g. a value printed from ill-formed text) must not crash the check
         p = subprocess.run(cmd, cwd=cwd, env=env or ENV, input=inp, stdout=subprocess.PIPE, stderr=subprocess.PIPE,
-                           timeout=timeout, text=isinstance(inp, str) or inp is None)
+                           timeout=timeout, **kw)
     except subprocess.TimeoutExpired as e:
         if check:
             raise
